@@ -372,3 +372,126 @@ Theorem C17_replay_total : forall c, wf_b tables c = true -> once_b tables accep
            /\ forall k d, delivers (accept_class tables accept_tables_gen v tree) k d <-> delivers t_v k d).
 Proof. exact replay_total. Qed.
 Print Assumptions C17_replay_total.
+
+(* ======================= parsed VALUES: annotations, AnnotationDefault, Signature, SourceFile =======================
+
+   Vocabulary (coq/C17/Values.v, ValuesGen.v, Theory17.v, Theory18.v).  [evalue]: an element_value tree (JVMS 4.7.16.1) with
+   its pool indices; [enc_value] / [enc_annotations] its JVMS encoding; [p_value X fuel] / [p_annotations X] the model of
+   duke's `read_element_value_unnamed` / `read_element_values_named` / `read_annotations_attribute`, driven by the table X
+   (tags, pool accessor of every constant tag, MAX_ELEMENT_VALUE_NESTING) that translate/c17_values.py reads off
+   class_reader.rs at every check ([xtable_gen]); [xtable_ok X]: the five kinds of arms are told apart by their tags.
+   [attr_value X V rs name raw body]: the value a visitor is handed for the attribute [name] with body [body] — the parsed tree
+   with every index resolved by [rs] (strings, numeric constants narrowed as the accessor narrows them), flattened; defined for
+   the annotations attributes, AnnotationDefault, the attributes whose body is one index of a string, and the attributes that are
+   rows of pool indices and flags, with the layout read off their reader arm ([vnames_gen]).
+   [attr_at t pl e]: in trace t the visitor at place pl (class, k-th field, k-th method, Code of the k-th method, k-th record
+   component) receives the attribute event e (name, raw?, body);  [value_at … t pl name val]: … and its parsed value is val.
+   [wanted T v pl name]: v accepts the class and the item at pl, and the interest flags that govern [name] there (and the Code /
+   Record attribute and the fields / methods around it) are set. *)
+From FB Require Import C17.Values C17.ValuesGen C17.Theory17 C17.Theory18.
+
+Theorem C17_generated_xtable_ok : xtable_ok xtable_gen = true.
+Proof. exact generated_xtable_ok. Qed.
+Print Assumptions C17_generated_xtable_ok.
+
+(* the parsed value IS the value the bytes encode, and the parser consumes exactly the encoding: for every table that passes
+   the finite check, every element_value tree whose constants carry constant tags, nested at most [fuel] deep *)
+Theorem C17_element_value_parse : forall X, xtable_ok X = true ->
+  forall f v rest, value_ok X v = true -> (depth v <= f)%nat ->
+    p_value X f (enc_value X v ++ rest) = Ok (v, rest).
+Proof. exact p_value_enc. Qed.
+Print Assumptions C17_element_value_parse.
+
+Theorem C17_annotations_parse : forall X, xtable_ok X = true -> forall l rest,
+  forallb (annotation_ok X) l = true ->
+  p_annotations X (enc_annotations X l ++ rest) = Ok (l, rest).
+Proof. exact p_annotations_enc. Qed.
+Print Assumptions C17_annotations_parse.
+
+(* one level deeper than the limit is refused (arrays nested fuel+1 deep around any value) *)
+Theorem C17_element_value_too_deep : forall X, xtable_ok X = true ->
+  forall f v rest, p_value X f (enc_value X (nest_arrays (S f) v) ++ rest) = Err.
+Proof. exact p_value_too_deep. Qed.
+Print Assumptions C17_element_value_too_deep.
+
+(* what the visitor is handed for an annotations attribute is the resolved, flattened list of the annotations it encodes *)
+Theorem C17_attr_value_annotations : forall X V rs name l, xtable_ok X = true ->
+  existsb (str_eqb name) (vn_annotations V) = true -> forallb (annotation_ok X) l = true ->
+  attr_value X V rs name false (enc_annotations X l) = Some (canon_annotations X rs l).
+Proof. exact attr_value_annotations. Qed.
+Print Assumptions C17_attr_value_annotations.
+
+Theorem C17_values_examples : values_nonvacuous.
+Proof. exact values_nonvacuous_holds. Qed.
+Print Assumptions C17_values_examples.
+
+(* content_projection for attributes: the projection hands a place exactly the attributes (name, body) of the full trace that
+   the visitor wants there — nothing else, nothing changed *)
+Theorem C17_project_attr_at : forall T v t pl n r b,
+  attr_at (project T v t) pl (EAttr n r b) <-> attr_at t pl (EAttr n r b) /\ wanted T v pl n.
+Proof. exact project_attr_at. Qed.
+Print Assumptions C17_project_attr_at.
+
+(* the equivalence of the replay theorems preserves them *)
+Theorem C17_sim_attr_at : forall a b, sim_trace a b ->
+  forall pl n r body, attr_at a pl (EAttr n r body) <-> attr_at b pl (EAttr n r body).
+Proof. exact sim_attr_at. Qed.
+Print Assumptions C17_sim_attr_at.
+
+(* reading: at every place a visitor is handed exactly the parsed values the full read reports there, if it wants them *)
+Theorem C17_read_values_projection : forall X V rs T g c h, tables_ok T = true -> wf g T c h ->
+  forall v rest t_v, read_class g T v (enc c ++ rest) = Ok (t_v, rest) ->
+  forall pl name val,
+    value_at X V rs t_v pl name val <-> value_at X V rs (spec_class T (v_full T) h c) pl name val /\ wanted T v pl name.
+Proof. exact read_values_projection. Qed.
+Print Assumptions C17_read_values_projection.
+
+(* replaying: the same for the tree of the full read replayed into any visitor *)
+Theorem C17_replay_values : forall X V rs T AT, tables_ok T = true -> accept_ok T AT = true ->
+  forall t_full tree, build true T AT t_full = Ok tree ->
+  forall v pl name val,
+    value_at X V rs (accept_class T AT v tree) pl name val <-> value_at X V rs t_full pl name val /\ wanted T v pl name.
+Proof. exact replay_values. Qed.
+Print Assumptions C17_replay_values.
+
+Theorem C17_replay_values_known : forall X V rs T AT, tables_ok T = true -> accept_ok T AT = true ->
+  forall t_full tree, build false T AT t_full = Ok tree -> replay_inexact T AT t_full = false ->
+  forall v pl name val,
+    value_at X V rs (accept_class T AT v tree) pl name val <-> value_at X V rs t_full pl name val /\ wanted T v pl name.
+Proof. exact replay_values_known. Qed.
+Print Assumptions C17_replay_values_known.
+
+(* for the code as it is, with decidable hypotheses only: reading with any visitor and replaying into it hand over the same
+   parsed values at every place, and they are those of the full read that the visitor wants *)
+Theorem C17_values_total : forall c, wf_b tables c = true -> once_b tables accept_tables_gen c = true ->
+  replay_inexact tables accept_tables_gen (full_of c) = false ->
+  exists tree, build false tables accept_tables_gen (full_of c) = Ok tree
+    /\ forall rs v rest, exists t_v, read_class g_len tables v (enc c ++ rest) = Ok (t_v, rest)
+         /\ forall pl name val,
+              (value_at xtable_gen vnames_gen rs t_v pl name val
+               <-> value_at xtable_gen vnames_gen rs (full_of c) pl name val /\ wanted tables v pl name)
+              /\ (value_at xtable_gen vnames_gen rs (accept_class tables accept_tables_gen v tree) pl name val
+                  <-> value_at xtable_gen vnames_gen rs t_v pl name val).
+Proof. exact values_total. Qed.
+Print Assumptions C17_values_total.
+
+Theorem C17_values_example : values_example.
+Proof. exact values_example_holds. Qed.
+Print Assumptions C17_values_example.
+
+(* the attributes that are rows of constant pool indices and flags (InnerClasses, EnclosingMethod, NestHost, NestMembers,
+   PermittedSubclasses, ModuleMainClass, ModulePackages, Exceptions, MethodParameters; layouts read off their reader arms by the
+   translator: [layouts_gen]): the row parser inverts the encoding and consumes exactly it, for every layout; and the value handed
+   over is the rows with every index resolved and every flags word masked as the tree type's From<u16> masks it *)
+Theorem C17_layout_parse : forall lay rows rest, rows_ok lay rows = true ->
+  p_layout lay (enc_layout lay rows ++ rest) = Ok (rows, rest).
+Proof. exact p_layout_enc. Qed.
+Print Assumptions C17_layout_parse.
+
+Theorem C17_attr_value_layout : forall X V rs name lay rows,
+  existsb (str_eqb name) (vn_annotations V) = false -> str_eqb name (vn_element V) = false ->
+  existsb (str_eqb name) (vn_index V) = false -> assoc_layout name (vn_layouts V) = Some lay ->
+  rows_ok lay rows = true ->
+  attr_value X V rs name false (enc_layout lay rows) = Some (canon_layout rs lay rows).
+Proof. exact attr_value_layout. Qed.
+Print Assumptions C17_attr_value_layout.
